@@ -467,6 +467,7 @@ def tasks_binding(ctx, pid, keep):
         elif keep(rec["sig"]):
             ctx.violation(pid + ":" + rec["sig"], rec.get("detail", ""), rec.get("data"))
     ctx.evaluations += stats.get("evaluations", 0)
+    ctx.extra["task_list_divergences_from_model"] = stats.get("divergences", 0)
     ctx.traces += len(lines)
     for ln in lines:
         if ln["table"]:
@@ -618,6 +619,7 @@ def c13(ctx):
     st = replay_results(ctx, ctx.path("rrt.out"), "C13")
     ctx.evaluations += st.get("evaluations", 0)
     ctx.traces += st.get("groups", 0)
+    ctx.extra["runs_diverging_from_the_rrt_model"] = st.get("divergences", 0)
     for ln in lines:
         if ln["ok"]:
             ctx.nontrivial.add(json.dumps([ln["start"], ln["goal"], ln["len"], ln["blocked"], ln["samples"]]))
